@@ -346,3 +346,86 @@ def c17(ctx):
     ctx.floor("alpha", 1)
     ctx.floor("tabidx", 3)
     ctx.floor("tables", 40)
+
+
+# ---------------------------------------------------------------------------
+from . import rules_misc as RM
+
+
+@prop("C14", "other",
+      "Only the structural necessary condition is decided: at each of the five cell-addressing sites (three count-min query kernels, "
+      "heavy-hitter _add and _max_count) fasthash64 is called once per row inside `for row in range(depth)` with a seed that is an "
+      "injective function of the row, the result is reduced modulo the width parameter, and every table access of that iteration is "
+      "[row, that column]. The statistical statement (uniformity, independence across seeds, the exp(-depth) tail) is NOT decided.")
+def c14(ctx):
+    n = RM.rule_seedrow(ctx)
+    RA.rule_bind(ctx, [c for c in SKETCH_CLASSES if c[1] != "HyperLogLog"])
+    ctx.floor("seedrow", 10)
+    ctx.undecided_clauses.append("uniformity of FastHash within a row and independence across seeds; the exp(-depth) bound itself -- statistical, not decided")
+
+
+@prop("C06", "other",
+      "Three structural clauses only: (randtoken) the random-draw pointer is a linear token -- every function that takes it passes "
+      "the current pointer on, rebinds it from every callee result (inside loops too) and returns the latest one, and the four methods "
+      "store it back; (batchconst) one batch length N in the refill test, the refill, and both constructors, draws read at the "
+      "pre-increment pointer, refill replaces the whole batch with np.random.rand(N); (expo) the increment probability base**(-(c - "
+      "num_reserved)) and the decoder's base**(c - num_reserved) use opposite exponents, the decoder is the geometric sum, and the "
+      "deterministic ranges of writer and reader match. NOT decided: the numerical law (expectation, distribution), uniformity of the "
+      "generator, the lower bound over histories.")
+def c06(ctx):
+    RM.rule_randtoken(ctx)
+    RM.rule_batchconst(ctx)
+    RM.rule_expo(ctx)
+    RA.rule_logstep(ctx)
+    RA.rule_bind(ctx, COUNTMIN[1:])
+    ctx.floor("randtoken", 10)
+    ctx.floor("batchconst", 7)
+    ctx.floor("expo", 5)
+    ctx.undecided_clauses.append("unbiasedness / exact distribution of log counters; uniformity and independence of np.random draws -- numeric/statistical, not decided")
+
+
+@prop("C09", "other",
+      "Decided structurally: the merge kernels never write the second operand (other-ro, through the effect analysis and bind); the "
+      "linear merge stores min(a + b, 2^32-1) in every cell exactly once over the whole table with prange bodies writing only their "
+      "own row (msum, range, mono, cover); both bookkeeping counters are summed once (sumcounters); the log merges decode both operands "
+      "with the same (num_reserved, base), store the exact sum in the reserved range, the ceiling at v >= max_count, and otherwise "
+      "choose between clower and clower+1 by a half-way test, clower being the inverse of the decoder's geometric sum (logmerge-shape); "
+      "merge() guards come first (guard-first/guard-set). NOT decided: floating-point accuracy of the re-encoding, monotonicity of merged log counters.")
+def c09(ctx):
+    F = facts_of(ctx)
+    RA.rule_bind(ctx, COUNTMIN)
+    RA.rule_ceil(ctx)
+    mk = RA.merge_kernels(F, COUNTMIN)
+    RA.rule_other_ro(ctx, mk)
+    RA.rule_msum(ctx)
+    RA.rule_range(ctx, {"cms"})
+    RA.rule_mono(ctx, {"cms"})
+    RA.rule_cover(ctx, mk)
+    RA.rule_sumcounters(ctx, mk)
+    RM.rule_logmerge_shape(ctx)
+    RT.rule_mergeguard(ctx, COUNTMIN)
+    ctx.floor("other-ro", 3)
+    ctx.floor("msum", 3)
+    ctx.floor("cover", 6)
+    ctx.floor("sumcounters", 6)
+    ctx.floor("logmerge-shape", 10)
+    ctx.undecided_clauses.append("that log((v-r)(b-1)+1)/log b inverts _counter2value to the nearest counter in floating point; monotonicity of merged log counters -- numeric")
+
+
+@prop("C11", "other",
+      "Named structural clauses only; bit-exact equality with the reference algorithms is NOT decided. Decided: every hash kernel is "
+      "pure (no parameter written, no mutable global, no impure call) so the value depends on (bytes, seed) only (pure); one block size "
+      "per function -- len // B, key[: nblocks*B] viewed with B-byte items, tail key[nblocks*B:], residue len & (B-1) -- B = 8 for "
+      "fasthash64, 4 for murmur3 (blocksize); every whole block consumed once in ascending order (blockloop); the tail switch handles "
+      "every residue 1..B-1 and in branch r uses exactly tail[0..r-1], each once, byte i shifted by 8*i (bytes-once); helpers take and "
+      "return the family's unsigned word and the public functions have the published seed/return widths (uwidth).")
+def c11(ctx):
+    RM.rule_pure(ctx)
+    RM.rule_uwidth(ctx)
+    RM.rule_blocks(ctx)
+    ctx.floor("pure", 20)
+    ctx.floor("uwidth", 12)
+    ctx.floor("blocksize", 10)
+    ctx.floor("blockloop", 2)
+    ctx.floor("bytes-once", 12)
+    ctx.undecided_clauses.append("mixing constants, rotation amounts, operation order: equality with the published algorithms on all inputs is not decided by these rules")
